@@ -53,20 +53,44 @@ register(fn_contract(
     witnesses=[{"pubkey_": b""}, {"pubkey_": b"\x02" * 33}],
 ))
 
-# ---- SEC1 round trip: decoding the encoding of a curve point gives the point back (both forms)
+# ---- SEC1 round trip: decoding the encoding of a curve point gives the point back
 G_ = (0x79BE667EF9DCBBAC55A06295CE870B07029BFCDB2DCE28D959F2815B16F81798, 0x483ADA7726A3C4655DA4FBFC0E1108A8FD17B448A68554199C47D08FFB10D4B8)
-for comp in (True, False):
-    register(Theorem(
-        f"C14.sec1.roundtrip.{'compressed' if comp else 'uncompressed'}", P + ["C09", "C08"], params={"x": "int", "y": "int"},
-        requires=["0 <= x < spec.ec.P", "0 <= y < spec.ec.P", "spec.ec.on_curve(x, y)"],
-        body=f"spec.ec.sec1_decode(spec.ec.sec1_encode(x, y, {comp}))",
-        cases=[Case("ok", ensures={"point_back": "result == (x, y)"})],
-        options={"lemmas": ["sqrt_root", "sq_eq", "no_two_torsion"], "nla": False,
-                 "native_gen": lambda rng: dict(zip("xy", __import__("spec").ec.ec_mul(rng.randrange(1, 2**256), __import__("spec").ec.G))),
-                 "assumptions": ["A-prime-p; field lemmas sqrt_root (p = 3 mod 4), sq_eq, no_two_torsion"]},
-        witnesses=[{"x": G_[0], "y": G_[1]}],
-        note="spec-level lemma (the decoder is the one C14.point is proved against): used by C09's public extended-key round trip",
-    ))
+register(Theorem(
+    "C14.sec1.roundtrip.uncompressed", P, params={"x": "int", "y": "int"},
+    requires=["0 <= x < spec.ec.P", "0 <= y < spec.ec.P", "spec.ec.on_curve(x, y)"],
+    body="bits.utils.point(bits.utils.pubkey(x, y, compressed=False))",
+    cases=[Case("ok", ensures={"point_back": "result == (x, y)"})],
+    fuc=["bits.utils.point", "bits.utils.pubkey"],
+    options={"nla": False, "lemmas": ["pow_zero", "no_two_torsion"],
+             "native_gen": lambda rng: dict(zip("xy", __import__("spec").ec.ec_mul(rng.randrange(1, 2**256), __import__("spec").ec.G)))},
+    witnesses=[{"x": G_[0], "y": G_[1]}],
+    note="the real encoder and decoder, every curve point, uncompressed form",
+))
+
+
+def _points():
+    import random
+    import spec
+    rng = random.Random(141)
+    ks = [1, 2, 3, spec.ec.N - 1, spec.ec.N - 2] + [rng.randrange(1, spec.ec.N) for _ in range(95)]
+    for k in ks:
+        q = spec.ec.ec_mul(k, spec.ec.G)
+        for comp in (True, False):
+            yield {"x": q[0], "y": q[1], "compressed": comp}
+
+
+register(Theorem(
+    "C14.sec1.roundtrip.bounded", P, params={"x": "int", "y": "int", "compressed": "bool"},
+    requires=["spec.ec.on_curve(x, y)"],
+    body="(bits.utils.point(bits.utils.pubkey(x, y, compressed=compressed)), bits.utils.pubkey(*bits.utils.point(bits.utils.pubkey(x, y, compressed=compressed)), compressed=compressed) == bits.utils.pubkey(x, y, compressed=compressed))",
+    cases=[Case("ok", ensures={"point_back": "result[0] == (x, y)", "same_bytes": "result[1] is True"})],
+    fuc=["bits.utils.point", "bits.utils.pubkey"],
+    options={"bounded_only": True, "bounded_inputs": _points,
+             "bound": "100 curve points (k*G for k in {1, 2, 3, n-1, n-2} and 95 random k) x both forms: point(pubkey(P)) == P and re-encoding gives the same "
+                      "bytes.  The deductive version for the compressed form (square root + parity, contracts/pending_c14.py) was discharged only by a "
+                      "40 s CLI query that times out when all cores are busy, so it is not registered.  BOUNDED, not proved"},
+    witnesses=[],
+))
 
 # ---- WIF: decode(encode) for every key, network, address type and data suffix; unknown version bytes are refused
 NETS = ["mainnet", "testnet", "regtest"]
